@@ -6,6 +6,7 @@ import (
 	"encoding/json"
 	"fmt"
 	"strings"
+	"time"
 	"unicode/utf8"
 
 	"github.com/cedar-policy/cedar-go/types"
@@ -597,8 +598,9 @@ func typedSpellings() *core.Family {
 
 func Check() *core.Check {
 	return &core.Check{
-		ID:    "C13",
-		Title: "Entity, value and request JSON round-trip without loss",
+		ID:        "C13",
+		HangAfter: 120 * time.Second, // cases take at most seconds (max_case_s in the evidence); see core.Family.HangAfter
+		Title:     "Entity, value and request JSON round-trip without loss",
 		Rule: "bounded-exhaustive: values to depth 2 over a leaf universe (limits of every type, JSON-escape strings) with record keys incl. the escape keywords, every Unicode scalar as string / key / entity id, entities over every parent subset x attrs x tags, entity maps, requests, decisions, diagnostics: decode(encode(x)) equals x with the same type, encoding byte-stable; every combination of <=2 deviating spellings (explicit escape / implicit object / bare string) in a schema-typed entity document decodes to equal entities; " +
 			"every executed case is non-trivial (distinct datum)",
 		Assumptions: []string{"strings that are not valid UTF-8 are outside the domain (JSON cannot carry them)", "datetimes in the first representable day are excluded here (recorded under C12)"},
